@@ -859,7 +859,8 @@ func (vc *VC) wf(st *State, v Term, t types.Type, depth int) Term {
 		}
 		return And(c...)
 	case *types.Interface:
-		return app(SBool, ">=", app(SInt, "i-val", v), intLit64(0))
+		typ, val := app(SInt, "i-typ", v), app(SInt, "i-val", v)
+		return And(app(SBool, ">=", val, intLit64(0)), app(SBool, ">=", typ, intLit64(0)), Implies(Eq(typ, intLit64(0)), Eq(val, intLit64(0))))
 	case *types.Struct:
 		if depth > 2 {
 			return TTrue
